@@ -113,10 +113,15 @@ class Conc:
                         NEWM: ("new-m\n second\n\tthird", " new-m\n second\n\tthird\n", "new-m\n second\n\tthird")}
         else:
             k = rng.randrange(1000)
-            s_in = rng.choice(["n%d", "  n%d  ", "n%d a:b #c", "\tn%d"]) % k
+            # character stress inside a single-line value: tabs, runs of blanks, NBSP / zero-width /
+            # not NFC-stable / non-BMP text, characters str.splitlines() does not treat as line ends
+            s_in = rng.choice(["n%d", "  n%d  ", "n%d a:b #c", "\tn%d", "n%d,\tb,\t\tc", "n%d  two   three",
+                               "n%d\u00a0x\u200by cafe\u0301 \u212b \U0001f600", "n%d \t x", "a\tn%d",
+                               "n%d " + "w" * 300 + "\tz"]) % k
             m_in = rng.choice(["m%d\n second\n\tthird", " m%d \n x", "m%d\n .\n y é", "\n only-cont-%d",
                                "usage %d\n   $ run --all\n   $ run --none", "m%d\n  two\n    four\n      six",
                                "m%d\n\ttab1\n\ttab2", "m%d\n \tmixed\n  x  y  ", "\n   deep-%d\n   deep2",
+                               "m%d,\tb\n c,\t\td  e", "m%d\u00a0x\n caf\u00e9\u200b \U0001f600\ty",
                                "m%d\n " + "c" * 300 + "\n  d"]) % k
             first, rest = m_in.split("\n", 1)
             self.new = {NEWS: (s_in, " " + s_in.strip() + "\n", s_in.strip()),
